@@ -1,5 +1,6 @@
 import BppProofs.Lemmas.OptimGolden
 import BppProofs.Lemmas.OptimObjective
+import BppProofs.Lemmas.OptimBrent
 /-!
 Helper lemmas for C10: the constraint policy.  Every evaluation an optimiser makes passes a
 parameter list to `f`; when that list is *tied* to the constraints of the list given to `init`
@@ -308,6 +309,127 @@ theorem gssOptimize_safe (hs : Safe I Q T) (fuel : Nat) (s : St F (Gss ℝ) ℝ)
     · rename_i s2 v2 he2
       have h2 := evalOwn_safe' hs he2 this.1 this.2
       exact ⟨h2.1, h2.2.1⟩
+
+/-! ### Brent -/
+
+theorem inwardScan_safe (hs : Safe I Q T) (jump : ℝ) : ∀ (n : Nat) (fn : F) (pl : PList ℝ) (curr : ℝ) (best : BPt ℝ),
+    Q fn → T pl → ROk Q (fun r => Q r.1 ∧ T r.2.1) (inwardScan I jump n fn pl curr best) := by
+  intro n
+  induction n with
+  | zero => intro fn pl curr best hQ hT; rw [inwardScan]; exact ⟨hQ, hT⟩
+  | succ n ih =>
+    intro fn pl curr best hQ hT
+    rw [inwardScan]
+    try dsimp only
+    split
+    · rename_i e he; exact eval0_safe' hs he hQ hT
+    · rename_i fn1 pl1 v he
+      have := eval0_safe' hs he hQ hT
+      exact ih _ _ _ _ this.1 this.2
+
+theorem inward_safe (hs : Safe I Q T) (fuel : Nat) (a b : ℝ) (n : Nat) (fn : F) (pl : PList ℝ) (hQ : Q fn) (hT : T pl) :
+    ROk Q (fun r => Q r.1) (inwardBracketMinimum I fuel a b n fn pl) := by
+  unfold inwardBracketMinimum
+  split
+  · rename_i e he; exact eval0_safe' hs he hQ hT
+  · rename_i fn1 pl1 fa he1
+    have h1 := eval0_safe' hs he1 hQ hT
+    try dsimp only
+    split
+    · rename_i e he; exact eval0_safe' hs he h1.1 h1.2
+    · rename_i fn2 pl2 fb he2
+      have h2 := eval0_safe' hs he2 h1.1 h1.2
+      try dsimp only
+      have h3 := shrinkB_safe hs fuel fn2 pl2 ⟨b, fb⟩ h2.1 h2.2
+      split
+      · rename_i e he; rw [he] at h3; exact h3
+      · rename_i fn3 pl3 pb he3
+        rw [he3] at h3
+        try dsimp only
+        have h4 := inwardScan_safe hs ((b - a) / Scalar.ofInt (Int.ofNat n)) n fn3 pl3 a
+          (if Scalar.ltb (⟨a, fa⟩ : BPt ℝ).f pb.f = true then (⟨a, fa⟩ : BPt ℝ) else pb) h3.1 h3.2
+        split
+        · rename_i e he; rw [he] at h4; exact h4
+        · rename_i fn4 pl4 best he4
+          rw [he4] at h4
+          try dsimp only
+          split
+          · rename_i e he; exact eval0_safe' hs he h4.1 h4.2
+          · rename_i fn5 pl5 fbest he5
+            exact (eval0_safe' hs he5 h4.1 h4.2).1
+
+theorem brentDoInit_safe (hs : Safe I Q T) (fuel : Nat) (s : St F (Brent ℝ) ℝ) (params : PList ℝ) (hQ : Q s.fn) (hT : T s.core.params) :
+    ROk Q (fun r => Q r.fn ∧ T r.core.params) (brentDoInit I fuel s params) := by
+  unfold brentDoInit
+  split
+  · exact hQ
+  · have hb : ROk Q (fun r => Q r.1) (if s.ext.inward = true then inwardBracketMinimum I fuel s.ext.xinf s.ext.xsup 10 s.fn s.core.params
+        else bracketMinimum I fuel s.ext.xinf s.ext.xsup s.fn s.core.params) := by
+      split
+      · exact inward_safe hs fuel _ _ _ _ _ hQ hT
+      · exact bracketMinimum_safe hs fuel _ _ _ _ hQ hT
+    generalize (if s.ext.inward = true then inwardBracketMinimum I fuel s.ext.xinf s.ext.xsup 10 s.fn s.core.params
+        else bracketMinimum I fuel s.ext.xinf s.ext.xsup s.fn s.core.params) = br at hb
+    cases br with
+    | error e => exact hb
+    | ok r =>
+      obtain ⟨fnb, k⟩ := r
+      try dsimp only
+      split
+      · rename_i e he; obtain ⟨e1, fn1⟩ := e; exact hs.f_err _ _ _ _ hb hT he
+      · rename_i fn1 fx he
+        have hQ1 := hs.f_ok _ _ _ _ hb hT he
+        try dsimp only
+        split
+        · split
+          · exact hQ1
+          · exact ⟨hQ1, hT⟩
+        · split
+          · rename_i e he2; exact evalOwn_safe' hs he2 hQ1 hT
+          · rename_i sa fxb he2
+            have h2 := evalOwn_safe' hs he2 hQ1 hT
+            exact ⟨h2.1, h2.2.1⟩
+
+theorem brentDoStep_safe (hs : Safe I Q T) (s : St F (Brent ℝ) ℝ) (hQ : Q s.fn) (hT : T s.core.params) :
+    ROk Q (fun r => Q r.1.fn ∧ T r.1.core.params) (brentDoStep I s) := by
+  unfold brentDoStep
+  generalize brentPropose s.core.tolerance s.ext = pr
+  obtain ⟨g1, u⟩ := pr
+  try dsimp only
+  split
+  · exact hQ
+  · rename_i pl hset
+    have hT1 := hs.set _ _ _ _ hT hset
+    try dsimp only
+    split
+    · rename_i e he; obtain ⟨e1, fn1⟩ := e; exact hs.f_err _ _ _ _ hQ hT1 he
+    · rename_i fn1 fu he
+      have hQ1 := hs.f_ok _ _ _ _ hQ hT1 he
+      try dsimp only
+      split
+      · exact hQ1
+      · rename_i pl2 hset2
+        exact ⟨hQ1, hs.set _ _ _ _ hT hset2⟩
+
+theorem brent_safeAlgo (hs : Safe I Q T) (fuel : Nat) : SafeAlgo (brentAlgo I fuel) Q T :=
+  { doInit := fun s params hQ hT => brentDoInit_safe hs fuel s params hQ hT,
+    doStep := fun s hQ hT => brentDoStep_safe hs s hQ hT,
+    stopInit := fun _ => ⟨rfl, rfl⟩,
+    stop := fun s => ⟨(brentStop_same s).2.1, (brentStop_same s).2.2⟩ }
+
+theorem brentOptimize_safe (hs : Safe I Q T) (fuel : Nat) (s : St F (Brent ℝ) ℝ) (hQ : Q s.fn) (hT : T s.core.params) :
+    ROk Q (fun r => Q r.1.fn ∧ T r.1.core.params) (brentOptimize I fuel s) := by
+  unfold brentOptimize
+  have := optimize_safe (brent_safeAlgo hs fuel) fuel s hQ hT
+  split
+  · rename_i e he; rw [he] at this; exact this
+  · rename_i s1 v he
+    rw [he] at this
+    try dsimp only
+    split
+    · rename_i e he2; obtain ⟨e1, fn1⟩ := e; exact hs.f_err _ _ _ _ this.1 this.2 he2
+    · rename_i fn2 v2 he2
+      exact ⟨hs.f_ok _ _ _ _ this.1 this.2 he2, this.2⟩
 
 /-! ### the objective of the harness -/
 
